@@ -597,6 +597,17 @@ Proof.
   eapply buildStep_executable; eauto.
 Qed.
 
+(* "runnable": the pointer fields the runner dereferences without a test (agent.setup: SMTP; reporter.go: ErrorMail,
+   InfoMail) are set in every DAG a full (not metadata-only) build accepts *)
+Theorem build_runner_pointers : forall o d base e g,
+  outcome (build cron sig_ok tokenize sh o d base e) = Ok g -> o_metadataOnly o = false ->
+  is_some (g_smtp g) = true /\ is_some (g_errorMail g) = true /\ is_some (g_infoMail g) = true.
+Proof.
+  intros o d base e g H Hm. destruct (build_ok_inv _ _ _ _ _ H) as (env & sch & par & _ & Hrest).
+  rewrite Hm in Hrest. destruct Hrest as (vars & steps & logDir & hs & smtp & pre & _ & _ & _ & _ & ->).
+  simpl. auto.
+Qed.
+
 (* ---------------------------------------------------------------------------------------------------- *)
 (* C13: the status of an accepted DAG is serialisable (full statement since fix 667fb54)                  *)
 (* ---------------------------------------------------------------------------------------------------- *)
